@@ -255,10 +255,10 @@ type World struct {
 }
 
 func (w *World) GenesisReceiver() *ref.Key { return w.Wallets[0] }
-func (w *World) User(i int) *ref.Key      { return w.Wallets[1+i] }
-func (w *World) NodeWallet(i int) int     { return 1 + w.Cfg.Users + i }
-func (w *World) RogueWallet(i int) int    { return 1 + w.Cfg.Users + w.Cfg.Nodes + i }
-func (w *World) NumWallets() int          { return len(w.Wallets) }
+func (w *World) User(i int) *ref.Key       { return w.Wallets[1+i] }
+func (w *World) NodeWallet(i int) int      { return 1 + w.Cfg.Users + i }
+func (w *World) RogueWallet(i int) int     { return 1 + w.Cfg.Users + w.Cfg.Nodes + i }
+func (w *World) NumWallets() int           { return len(w.Wallets) }
 
 // ErrStuck is returned when a call into the code under test did not return in time.
 var ErrStuck = errors.New("sim: call did not return (stuck)")
